@@ -766,8 +766,9 @@ time.sleep(float(secs))
 with open(os.path.join(logdir, '%s.%d.end' % (tag, os.getpid())), 'w') as f:
     f.write(repr(time.time()))
 """
-LONG_S, SHORT_S = 20.0, 0.5  # a child with model duration >= 3 really sleeps 20 s (limit 1 s; the wall-clock bound is
-# 1 s + 6 s slack, so waiting for it instead of killing it is visible); "exits just before": 0.5 s; duration 2: 2 s
+LONG_S, SHORT_S = 20.0, 0.5  # a child with model duration >= 3 really sleeps 20 s (limit 2 s; the wall-clock bound is
+# 2 s + 10 s slack, so waiting for it instead of killing it is visible); "exits just before": 0.5 s; duration 2: 2 s
+REAL_LIMIT = 2
 
 
 def real_site_cases(ph, kind, actor, thorough):
@@ -788,18 +789,18 @@ def real_site_cases(ph, kind, actor, thorough):
 
     n = 1 if ph == 'act' else KINDS[kind][0]
     long_ds = [3] + [0] * (n - 1)
-    out = [base(long_ds, [setv(1)], 'sleep'), base([0] * n, [setv(1)], 'just-before'), base(long_ds, [setv(1)], 'ignore-term')]
+    out = [base(long_ds, [setv(REAL_LIMIT)], 'sleep'), base([0] * n, [setv(REAL_LIMIT)], 'just-before'), base(long_ds, [setv(REAL_LIMIT)], 'ignore-term')]
     if thorough:
-        out.append(base([2] + [0] * (n - 1), [setv(1), setv(None)], 'sleep'))  # lifted: a 2 s child completes
+        out.append(base([2] + [0] * (n - 1), [setv(REAL_LIMIT), setv(None)], 'sleep'))  # lifted: a 2 s child completes
         if ph != 'act':
-            out.append(base([2] + [0] * (n - 1), [], 'sleep', post=[setv(1)]))  # limit set after the use: not retroactive
+            out.append(base([2] + [0] * (n - 1), [], 'sleep', post=[setv(REAL_LIMIT)]))  # limit set after the use: not retroactive
         else:
             c = base([2], [], 'sleep')
-            c['phases']['before-assert'] = [setv(1)]
+            c['phases']['before-assert'] = [setv(REAL_LIMIT)]
             out.append(c)
         if n == 2:
-            out.append(base([0, 3], [setv(1)], 'sleep'))
-        out.append(base(long_ds, [setv(1)], 'sleep', opt='--keep'))
+            out.append(base([0, 3], [setv(REAL_LIMIT)], 'sleep'))
+        out.append(base(long_ds, [setv(REAL_LIMIT)], 'sleep', opt='--keep'))
     return out
 
 
@@ -959,7 +960,7 @@ def run_real(ctx, res):
         res.prop_failures.append(Failure('property', meta[i],
                                          'real run violates C19: verdict is not HARD_ERROR at the step that started the sleeping '
                                          'child / cleanup did not run / sandbox left / a child is still alive afterwards / wall clock '
-                                         'exceeds the model bound (sum of waits + %d ms)' % 6000))
+                                         'exceeds the model bound (sum of waits + %d ms)' % 10000))
     for i in cb:
         res.disagreements.append(Failure('correspondence', meta[i], 'Model/Timeout.v differs from the real run (sites started, '
                                                                     'verdict, sandbox)'))
@@ -1005,5 +1006,41 @@ def run(ctx, res):
 
 
 def replay(ctx, payload):
-    print(json.dumps(payload.get('case'), indent=1, default=str))
-    return 0
+    """re-run one stored input on the implementation and on the model and print both"""
+    m = payload.get('case') or {}
+    d = m.get('case')
+    if not d:
+        print(json.dumps(payload, indent=1, default=str)[:4000])
+        return 0
+    case = {'actor': d['actor'], 'act_d': d['act_child_seconds'], 'opt': d.get('option'), 'phases': d['phases']}
+    default = default_timeout()
+    os.makedirs(ctx.work, exist_ok=True)
+    if d.get('child'):
+        case['real'] = d['child']
+        rr = RealRunner(ctx)
+        try:
+            em, obs = rr.run(case)
+        finally:
+            rr.close()
+    else:
+        ip = InProc(ctx)
+        try:
+            em, obs, err = ip.run(case)
+        finally:
+            ip.close()
+        if err:
+            print('implementation:', err)
+            return 1
+    print(em.text)
+    print('implementation observed:', json.dumps(obs, default=str))
+    keep = cbool(case.get('opt') == '--keep')
+    vals, out = common.coq_eval_terms(PROP, IMPORTS, ['model_obs %s %s' % (keep, c_tcase(case, default)),
+                                                     'P_C19 %s %s %s %s' % (cbool(not d.get('child')), keep, c_tcase(case, default),
+                                                                            c_obs(obs, with_timeouts=not d.get('child')))],
+                                      tag='replay')
+    if vals is None:
+        print(out[-2000:])
+        return 1
+    print('model observation      :', vals[0])
+    print('property on the observed behaviour (P_C19):', vals[1])
+    return 0 if vals[1].strip() == 'true' else 1
